@@ -431,3 +431,51 @@ def is_terminal_only(recipe):
             return False
     keys = [o["key"] for o in recipe["ops"] if o["k"] == "m"]
     return True
+
+
+def valid_recipe(r):
+    """Structural validity of a (possibly minimised) recipe: the minimiser must not leave the generator's domain."""
+    try:
+        dims = r["dims"]
+        n = len(dims)
+        if n < 1 or len(r.get("names", [])) != n:
+            return False
+        if "order" in r and sorted(r["order"]) != list(range(n)):
+            return False
+        measured = {}
+        for o in r["ops"]:
+            w = o.get("w", [])
+            if len(set(w)) != len(w) or any(not 0 <= i < n for i in w):
+                return False
+            k = o["k"]
+            if k in ("g", "cg"):
+                if o["g"][0] not in G.FAMILIES or len(w) != G.arity(o["g"]) or any(dims[i] != 2 for i in w) and not G.FAMILIES[o["g"][0]].qudit:
+                    return False
+                if k == "cg":
+                    if not o.get("conds") or any(c["key"] not in measured for c in o["conds"]):
+                        return False
+            elif k == "ch":
+                if o["g"][0] == "Stored":
+                    if not 1 <= len(w) <= 2 or not 1 <= int(o["g"][1].get("k", 2)) <= 4:
+                        return False
+                elif o["g"][0] not in G.FAMILIES or len(w) != G.arity(o["g"]):
+                    return False
+            elif k == "m":
+                if not w or len(o.get("inv") or []) > len(w):
+                    return False
+                dd = tuple(dims[i] for i in w)
+                if measured.setdefault(o["key"], dd) != dd:
+                    return False
+            elif k == "pm":
+                if not w or len(o["ps"]) != len(w) or any(dims[i] != 2 for i in w):
+                    return False
+                if measured.setdefault(o["key"], (2,)) != (2,):
+                    return False
+            elif k == "r":
+                if len(w) != 1:
+                    return False
+            else:
+                return False
+        return True
+    except (KeyError, TypeError, IndexError, ValueError):
+        return False
